@@ -174,6 +174,30 @@ var fileSeqMu sync.Mutex
 // (unsat / sat) wins. With confirm=true every solver is run to completion and
 // a sat from any solver overrides an unsat.
 func runSolvers(query string, timeoutS int, seed int, confirm bool, only []string) SolverResult {
+	r := runSolvers0(query, timeoutS, seed, confirm, only)
+	if r.Status != "unsat" || r.Solver != "z3-new" {
+		return r
+	}
+	for n, st := range r.All {
+		if n != "z3-new" && st == "unsat" {
+			return r // an independent solver agrees
+		}
+	}
+	// z3 5.1.0 answered "unsat" on satisfiable entry assumptions twice during development (not reproducible with another
+	// seed or statement order). An unsat that only z3-new gives is therefore accepted only when a second run with a
+	// different seed gives it again.
+	r2 := runSolvers0(query, timeoutS, seed+101, false, []string{"z3-new"})
+	if r2.Status == "unsat" {
+		r.Seconds += r2.Seconds
+		return r
+	}
+	r.Status = "unknown"
+	r.All["z3-new#2"] = r2.Status
+	r.Output = "z3-new answered unsat, but a second run with another seed did not (" + r2.Status + "): not accepted"
+	return r
+}
+
+func runSolvers0(query string, timeoutS int, seed int, confirm bool, only []string) SolverResult {
 	fileSeqMu.Lock()
 	fileSeq++
 	n := fileSeq
